@@ -250,6 +250,8 @@ func (b *builder) build1(t term, path string, root bool) error {
 		return ers.ParsePanic(args[0])
 	case "panics":
 		return ers.ParsePanic(args)
+	case "tail": // the interior node errors.Unwrap hands out for a *ers.Stack holding >= 2 errors
+		return errors.Unwrap(args[0])
 	}
 	panic("unknown op " + t.Op)
 }
